@@ -707,10 +707,13 @@ struct Round {
     free_order: Vec<usize>,
 }
 
-fn gen_round(dec: &mut Dec) -> Round {
-    let profile = dec.choose(K::Cfg, 9).min(7);
+/// `big_holes`: rounds of a few huge blocks with separators, holes opened in the middle of the
+/// round and at least one long-lived block (the states in which the open-ended last tree bin and
+/// the fall-through between tree bins decide whether freed space is found again)
+fn gen_round(dec: &mut Dec, big_holes: bool) -> Round {
+    let profile = if big_holes { 7 } else { dec.choose(K::Cfg, 9).min(7) };
     let n = if profile == 7 { 2 + dec.choose(K::Op, 7) as usize } else { 1 + dec.choose(K::Op, 50) as usize };
-    let npins = *dec.pick(K::Cfg, &[0usize, 0, 1, 2, 3]);
+    let npins = if big_holes { 1 + dec.choose(K::Cfg, 2) as usize } else { *dec.pick(K::Cfg, &[0usize, 0, 1, 2, 3]) };
     let pins: Vec<(usize, usize)> = (0..npins).map(|_| (dec.choose(K::Arg, n as u32) as usize, 16 + dec.choose(K::Arg, 1000) as usize)).collect();
     let mut bigs = 0;
     let mut reqs = Vec::with_capacity(n);
@@ -722,7 +725,7 @@ fn gen_round(dec: &mut Dec) -> Round {
                 size = 1 + size % 9000;
             }
         }
-        reqs.push(Req { size, align: if profile == 7 { 1usize << dec.choose(K::Arg, 5) } else { gen_align(dec) }, grow: dec.chance(K::Arg, 1, 5) });
+        reqs.push(Req { size, align: if profile == 7 { 1usize << dec.choose(K::Arg, 5) } else { gen_align(dec) }, grow: !big_holes && dec.chance(K::Arg, 1, 5) });
     }
     let mut free_order: Vec<usize> = (0..n).collect();
     match dec.choose(K::Cfg, 4) {
@@ -740,7 +743,7 @@ fn gen_round(dec: &mut Dec) -> Round {
         }
     }
     let mut early_frees = Vec::new();
-    let density = *dec.pick(K::Cfg, &[0u32, 0, 1, 2]);
+    let density = if big_holes { 1 + dec.choose(K::Cfg, 3) } else { *dec.pick(K::Cfg, &[0u32, 0, 1, 2]) };
     if density > 0 {
         for i in 1..n {
             if dec.chance(K::Op, density, 4) {
@@ -751,6 +754,19 @@ fn gen_round(dec: &mut Dec) -> Round {
             }
         }
     }
+    if big_holes && dec.chance(K::Cfg, 1, 2) {
+        // the plain form of the family: two huge blocks kept apart by a small one, both freed,
+        // then 1..4 huge blocks that fit the holes
+        let huge = |dec: &mut Dec| ((6 + dec.choose(K::Arg, 36) as usize) << 20) + 4096 * dec.choose(K::Arg, 512) as usize;
+        let r = |size| Req { size, align: 8, grow: false };
+        let mut reqs = vec![r(huge(dec)), r(16 + dec.choose(K::Arg, 2000) as usize), r(huge(dec))];
+        let z = huge(dec);
+        for _ in 0..1 + dec.choose(K::Arg, 4) {
+            reqs.push(r(if dec.chance(K::Arg, 2, 3) { z } else { huge(dec) }));
+        }
+        let n = reqs.len();
+        return Round { pins: vec![(0, 64)], early_frees: vec![(2, 0), (2, 2)], reqs, free_order: (0..n).collect() };
+    }
     Round { pins, early_frees, reqs, free_order }
 }
 
@@ -758,7 +774,9 @@ fn gen_round(dec: &mut Dec) -> Round {
 pub(crate) fn growth_violation(windows: &[usize], m_end: usize, peak_live: usize, rounds: usize, arena_exhausted: bool) -> Option<Violation> {
     // growth that ran into the end of the simulated address space stops growing: the plateau at
     // the top is the same verdict
-    if arena_exhausted && m_end > ARENA / 2 && m_end > 3 * peak_live + (8 << 20) {
+    // (without a refusal the same plateau is accepted only below 8 x peak live bytes: a heap that
+    // filled more than half of the address space at 8 times its demand grew until it met the wall)
+    if m_end > ARENA / 2 && (arena_exhausted && m_end > 3 * peak_live + (8 << 20) || m_end > 8 * peak_live + (64 << 20)) {
         return Some(Violation {
             sig: "footprint|unbounded-growth".into(),
             detail: format!("mapped bytes grew until the simulated address space ({ARENA} bytes) was used up while the same allocate-then-free-everything round repeats: window maxima {windows:?} over {rounds} rounds, {m_end} bytes mapped at the end, peak live bytes {peak_live}"),
@@ -782,11 +800,29 @@ pub(crate) fn growth_violation(windows: &[usize], m_end: usize, peak_live: usize
     None
 }
 
-fn run_footprint_single(dec: Dec, opts: &RunOpts, rounds: usize) -> RunOut {
+fn run_footprint_single(dec: Dec, opts: &RunOpts, rounds: usize, big_holes: bool) -> RunOut {
     let mut sim = Sim::new(dec, SimCfg { record: opts.record, ..SimCfg::default() });
-    let round = gen_round(&mut sim.dec);
-    let faults = if sim.dec.chance(K::Cfg, 1, 4) { FaultCfg { mmap_p: 1, ..FaultCfg::default() } } else { FaultCfg::default() };
-    let churn = sim.dec.chance(K::Cfg, 1, 4);
+    let mut round = gen_round(&mut sim.dec, big_holes);
+    if std::env::var_os("VERIF_C04_DEMO").is_some() {
+        // debugging aid, never part of a registered command: one fixed big-holes round
+        let mib = 1usize << 20;
+        let r = |size| Req { size, align: 8, grow: false };
+        round = Round {
+            pins: vec![(0, 64)],
+            reqs: vec![r(13 * mib), r(512), r(32 * mib), r(23 * mib - 4096), r(23 * mib - 4096), r(23 * mib - 4096), r(23 * mib - 4096)],
+            early_frees: vec![(2, 0), (2, 2)],
+            free_order: (0..7).collect(),
+        };
+    }
+    let faults = if !big_holes && sim.dec.chance(K::Cfg, 1, 4) { FaultCfg { mmap_p: 1, ..FaultCfg::default() } } else { FaultCfg::default() };
+    let churn = !big_holes && sim.dec.chance(K::Cfg, 1, 4);
+    // placement policy of the run: per call by decision, or consistently adjacent (Linux's
+    // top-down layout puts each new mapping directly below the previous one)
+    let mut policy = if big_holes { *sim.dec.pick(K::Cfg, &[0u8, 1, 1, 1, 2]) } else { *sim.dec.pick(K::Cfg, &[0u8, 0, 0, 1, 2]) };
+    if let Some(p) = std::env::var_os("VERIF_C04_DEMO") {
+        policy = p.to_string_lossy().parse().unwrap_or(1);
+    }
+    with_prov(|p| p.policy = policy);
     let k = MemKern::new(faults, false);
     sim.set_kernel(&k);
     let mut stats = Stats::default();
@@ -887,6 +923,9 @@ fn run_footprint_single(dec: Dec, opts: &RunOpts, rounds: usize) -> RunOut {
             panic_v = Some(Violation { sig: format!("panic|{loc}"), detail: format!("allocator panicked at {loc}: {msg}") });
         }
     });
+    if std::env::var_os("VERIF_C04_DEMO").is_some() {
+        eprintln!("exhausted {} windows {windows:?} m_end {m_end} peak_live {peak_live} mmaps {} unmaps {} above {} below {} isolated {}", with_prov(|p| p.n_exhausted), with_prov(|p| p.n_mmap), with_prov(|p| p.n_munmap), with_prov(|p| p.n_above), with_prov(|p| p.n_below), with_prov(|p| p.n_isolated));
+    }
     let gv = growth_violation(&windows, m_end, peak_live, rounds, with_prov(|p| p.n_exhausted) > 0);
     let sample = json!({"variant": "single-threaded rounds", "rounds": rounds, "requests_per_round": round.reqs.len(), "first_requests": round.reqs.iter().take(12).map(|q| json!([q.size, q.align])).collect::<Vec<_>>(), "churn": churn, "window_maxima_of_mapped_bytes": windows, "mapped_at_end": m_end, "peak_live_bytes": peak_live});
     let mut out = finish(&mut sim, &k, &stats, false, opts, sample, panic_v.or(gv));
@@ -900,7 +939,7 @@ fn run_footprint_threaded(dec: Dec, opts: &RunOpts, rounds: usize) -> RunOut {
     let mut sim = Sim::new(dec, SimCfg { record: opts.record, est_len: 2000, budget: 5_000_000, fair_budget: 5_000_000, ..SimCfg::default() });
     let nthreads = 2 + sim.dec.choose(K::Cfg, 2) as usize;
     let rds: Vec<Round> = (0..nthreads).map(|_| {
-        let mut r = gen_round(&mut sim.dec);
+        let mut r = gen_round(&mut sim.dec, false);
         r.reqs.truncate(16);
         r.free_order.retain(|i| *i < 16);
         r
@@ -978,7 +1017,7 @@ impl Check for C04 {
         }
     }
     fn rule(&self) -> String {
-        "each case = one seeded workload round (1..50 requests from the C03 size profiles and alignments, free order forward/reverse/interleaved/random, frees in the middle of a round, 0..3 small long-lived blocks, 1 request in 5 reached by doubling reallocs from an eighth of its size, a huge-size profile of 6..42 MiB, optional steady-state churn, optional sparse mmap refusals) repeated N times on one Dlmalloc (quick N=200; thorough N=200, every 8th case N=5000) over the simulated address space with placement by decision; 1 case in 6 runs 2..3 simulated threads through Mutex<Dlmalloc>. The provider's exact mapped-byte total is sampled after every call; maxima per window of N/8 rounds. Violation = maxima strictly increasing over the last 5 windows AND total growth >= 256 KiB AND mapped bytes at the end > 3 x peak live bytes + 8 MiB; or: the simulated 4 GiB address space was used up while mapped bytes at the end exceed both half of it and 3 x peak live bytes + 8 MiB. non-trivial = >=3 requests per round and at least one trim or unmap happened; distinct = hash over operation counts and provider counters. Every 13th case (case % 13 == 12) runs on engine B instead (crates/checks/src/c04b.rs): probes/allocprobe, a no-libc binary whose global allocator is tiny-std's own GlobalDlMalloc, under the ptrace simulator: 64..200 rounds of 2..4 real threads (1 case in 6: main alone) each doing 1..5 times 'allocate 2..8 blocks (small/medium/>=64 KiB profiles), touch, free in a generated order', all joined, one uncontended alloc/free on main, ROUND_END; scheduling points at every system call and right after every atomic instruction (breakpoints), 2..6 further single steps behind an atomic instruction every other time with the preempted thread held back 0..12 quanta, <=24 random bursts; mapped bytes = the tracer's mapping ledger at each ROUND_END (cross-checked with /proc/pid/maps); same growth oracle, signature footprint|unbounded-growth|global-allocator; non-trivial there = >=2 threads and a futex park or a burst while two threads were alive".into()
+        "each case = one seeded workload round (1..50 requests from the C03 size profiles and alignments, free order forward/reverse/interleaved/random, frees in the middle of a round, 0..3 small long-lived blocks, 1 request in 5 reached by doubling reallocs from an eighth of its size, a huge-size profile of 6..42 MiB (every 4th case is of the big-holes family: 2..8 huge blocks with separators, frees in the middle of the round and 1..2 long-lived blocks), optional steady-state churn, optional sparse mmap refusals) repeated N times on one Dlmalloc (quick N=200; thorough N=200, every 8th case N=5000) over the simulated address space with placement by decision; 1 case in 6 runs 2..3 simulated threads through Mutex<Dlmalloc>. The provider's exact mapped-byte total is sampled after every call; maxima per window of N/8 rounds. Violation = maxima strictly increasing over the last 5 windows AND total growth >= 256 KiB AND mapped bytes at the end > 3 x peak live bytes + 8 MiB; or: mapped bytes at the end exceed half of the simulated 4 GiB address space and either a mapping was refused for lack of room with the end above 3 x peak live bytes + 8 MiB, or the end is above 8 x peak live bytes + 64 MiB (growth that stopped at the wall). One run in 5x2 uses a consistent placement policy (top-down: every new mapping directly below the lowest one, as Linux lays mappings out; or bottom-up) instead of a placement drawn per call. non-trivial = >=3 requests per round and at least one trim or unmap happened; distinct = hash over operation counts and provider counters. Every 13th case (case % 13 == 12) runs on engine B instead (crates/checks/src/c04b.rs): probes/allocprobe, a no-libc binary whose global allocator is tiny-std's own GlobalDlMalloc, under the ptrace simulator: 64..200 rounds of 2..4 real threads (1 case in 6: main alone) each doing 1..5 times 'allocate 2..8 blocks (small/medium/>=64 KiB profiles), touch, free in a generated order', all joined, one uncontended alloc/free on main, ROUND_END; scheduling points at every system call and right after every atomic instruction (breakpoints), 2..6 further single steps behind an atomic instruction every other time with the preempted thread held back 0..12 quanta, <=24 random bursts; mapped bytes = the tracer's mapping ledger at each ROUND_END (cross-checked with /proc/pid/maps); same growth oracle, signature footprint|unbounded-growth|global-allocator; non-trivial there = >=2 threads and a futex park or a burst while two threads were alive".into()
     }
     fn assumptions(&self) -> Vec<String> {
         vec![
@@ -999,7 +1038,8 @@ impl Check for C04 {
         if case % 6 == 5 {
             run_footprint_threaded(dec, opts, rounds.min(400))
         } else {
-            run_footprint_single(dec, opts, rounds)
+            // every 4th case: the big-holes family
+            run_footprint_single(dec, opts, rounds, case % 4 == 1)
         }
     }
 }
